@@ -54,7 +54,7 @@ func exec(op string) (res string) {
 		return fmt.Sprint(gocql.VerifTokenLess("murmur3", string(hx(1)), string(hx(2))))
 	case "lessr":
 		return fmt.Sprint(gocql.VerifTokenLess("random", string(hx(1)), string(hx(2))))
-	case "rkey":
+	case "rkey", "rkey-held":
 		n := len(w) - 1
 		types := make([]gocql.TypeInfo, n)
 		idx := make([]int, n)
@@ -68,6 +68,18 @@ func exec(op string) (res string) {
 		b, err := gocql.VerifCreateRoutingKey(types, idx, vals)
 		if err != nil {
 			return "err"
+		}
+		if w[0] == "rkey-held" {
+			// the key must still be intact after other routing keys have been built (a query hashes it
+			// later, in the host selection policy): build a few other composite keys, force a GC cycle
+			// (sync.Pool hand-over), then read the retained slice
+			for k := 0; k < 4; k++ {
+				ov := make([]interface{}, 2)
+				ov[0] = []byte{byte(k), 0xee, 0xee, 0xee, 0xee, 0xee, 0xee, 0xee, 0xee}
+				ov[1] = []byte{0xdd, 0xdd, 0xdd, 0xdd, 0xdd, 0xdd, 0xdd, 0xdd, 0xdd, 0xdd, 0xdd}
+				ot := []gocql.TypeInfo{types[0], types[0]}
+				gocql.VerifCreateRoutingKey(ot, []int{0, 1}, ov)
+			}
 		}
 		return vh.Hex(b)
 	}
@@ -231,6 +243,10 @@ func main() {
 		}
 		op := "rkey " + strings.Join(parts, " ")
 		out.Case(op, exec(op), fmt.Sprintf("rkey/%d", n), true)
+		if i%4 == 0 {
+			op = "rkey-held " + strings.Join(parts, " ")
+			out.Case(op, exec(op), fmt.Sprintf("rkey-held/%d", n), true)
+		}
 	}
 	out.Close(nil)
 }
